@@ -360,7 +360,7 @@ func (db *DB) OpenTransaction() (*Transaction, error) {
 		mem: db.mpoolGet(0),
 	}
 	tr.mem.incref()
+	verifTrace(db.s, "tx:open", int64(tr.seq)) // before db.tr is set: Close reads db.tr without the write lock
 	db.tr = tr
-	verifTrace(db.s, "tx:open", int64(tr.seq))
 	return tr, nil
 }
